@@ -160,6 +160,7 @@ var fileKinds = []struct{ kind, content string }{
 	{"formatter-unsupported", "DELETE FROM staging WHERE batch = 1;\nTRUNCATE TABLE audit_log;\n"},
 	{"formatter-unsupported", "SELECT 1;\nSHOW TABLES;\n"},
 	{"formatter-unsupported", "WITH c AS (SELECT a FROM t) SELECT a FROM c;\nDESCRIBE t;\n"},
+	{"formatter-unsupported", "SELECT id FROM t;\nREPLACE INTO t (id, name) VALUES (1, 'a');\n"},
 	// derived at run time from what the binary itself prints for the base text (same options)
 	{"derived:canonical", "select a,b from t where a=1"},
 	{"derived:canonical-crlf", "select a,b from t where a=1 and b in (1,2)"},
